@@ -97,6 +97,48 @@ structure St where
   headEdits : Nat := 0
   midEdits : Nat := 0
 
+/-- answer-only result of a quiet operation -/
+def ansOfVals : List Val → Option Ans
+  | [] => some .none
+  | [.atom "ok"] => some .ok
+  | [.atom "err"] => some .err
+  | [.atom "notfound"] => some .notFound
+  | [.atom "T"] => some (.bool true)
+  | [.atom "F"] => some (.bool false)
+  | [.int v] => some (.val v)
+  | _ => none
+
+def quietStep (st : St) (l : Line) : Step St :=
+  let bad (why : String) : Step St := { st := st, bad := some s!"list {l.op}: {why}" }
+  let st := { st with m := MSt.dead }
+  match l.op, l.args with
+  | "fill", [.int a, .int n] =>
+    if n < 0 then bad "negative count" else
+    { st := { st with xs := fillFront a n.toNat st.xs }, tags := ["fill"]
+      spec := if l.res == [.atom "ok"] then none else some "sequence:fill" }
+  | "q", .atom name :: rest =>
+    match parseOp { l with op := name, args := rest }, ansOfVals l.res with
+    | some op, some ans =>
+      if op == .shift && st.xs.length ≤ 1 then bad "quiet shift on a one-element list (outcome open)" else
+      let (want, xs') := next st.dbl st.xs op
+      { st := { st with xs := xs' }, tags := [s!"q:{name}"], nontrivial := st.xs.length > 1000
+        spec := if ans == want then none else some s!"sequence:{name}" }
+    | _, _ => bad "operation or answer"
+  | "sum", [] =>
+    match l.res with
+    | [.int n, .int f, .int la, .int c] =>
+      let ok := n == (st.xs.length : Int) && f == st.xs.head?.getD 0 && la == st.xs.getLast?.getD 0 && c == checksum st.xs
+      { st := st, tags := ["sum"], spec := if ok then none else some "sequence:sum" }
+    | _ => bad "summary"
+  | "window", [.int i, .int j] =>
+    match l.res with
+    | [seq] =>
+      if i < 0 || j < i then bad "window bounds" else
+      { st := st, tags := ["window"]
+        spec := if seq.ints? == some ((st.xs.drop i.toNat).take (j - i).toNat) then none else some "sequence:window" }
+    | _ => bad "window result"
+  | _, _ => bad "arguments"
+
 def kindFor (dbl : Bool) : Kind where
   σ := St
   init := fun ps => match ps with
@@ -111,6 +153,10 @@ def kindFor (dbl : Bool) : Kind where
     | [.atom "hang"] => { st := st, model := mans, tags := [l.op], spec := some s!"terminates:{l.op}" }
     | _ =>
     if l.op == "dump" then { st := st, model := mans, tags := ["dump"] } else
+    -- long runs: `fill`, quiet operations (`q <op> …`: the answer only) and summarised observations.  The sequence
+    -- is carried by the specification's successor function (`Spec.C19.next`, the only admitted outcome:
+    -- `Theorems.C19.allowed_eq_next`); the pointer-level model is not run any more (quadratic on long lists).
+    if l.op == "fill" || l.op == "q" || l.op == "sum" || l.op == "window" then quietStep st l else
     match parseOp l, parseRes l.res with
     | some op, some (ans, xs') =>
       let headEdit := match op with
